@@ -318,6 +318,7 @@ pub fn emit_fn(owner: Option<&str>, name: &str, mut f: syn::ItemFn, contracts: &
     let poss: Vec<Pos> = blocks.iter().map(|b| parse_sel(name, &b.selector)).collect();
     f.attrs.clear();
     f.vis = syn::parse_quote!(pub);
+    ctx.counter = 0; // hoisted-bound names vx_n<k> are numbered per function
     Rules { ctx }.visit_item_fn_mut(&mut f);
 
     let mut sig_block: Option<usize> = None;
